@@ -56,7 +56,8 @@ def oracle(case) -> Result:
         torch.manual_seed(case['aseed'])
         with torch.no_grad():
             must(res, 'mps-train-forward', mps, x)
-    mps.eval()
+    if mps.training:
+        mps.eval()          # (a model that already is in eval mode gets no mode call at all)
     with torch.no_grad():
         y_mps = must(res, 'mps-forward', mps, x)
     exported = must(res, 'export', mps.export)
